@@ -32,6 +32,9 @@ type script struct {
 	AfterReg string
 	// AfterCfg: "sync" (Synchronize, session stays) | "drop" (close once the Configure response arrived)
 	AfterCfg string
+	// DropDuringCfgMs > 0: the connection is closed that many ms after Configure was SENT (the plugin's hook is
+	// made slow by the driver, so this is while the hook runs)
+	DropDuringCfgMs int64
 	// AfterCfgErr: what follows a Configure call that the stub answered with an error:
 	//   ""      keep the connection open (the session stays until the runtime is shut down)
 	//   "drop"  close the connection 50 ms later (what pkg/adaptation does)
@@ -232,6 +235,15 @@ func (s *session) RegisterPlugin(ctx context.Context, req *api.RegisterPluginReq
 	switch s.sc.Register {
 	case "refuse":
 		return nil, errors.New("registration refused by the scripted runtime")
+	case "configure-then-refuse":
+		// the runtime end configures the plugin before it answers RegisterPlugin, then refuses the registration
+		cctx, cancel := context.WithTimeout(context.Background(), 60*time.Second)
+		s.cfgResp, s.cfgErr = s.plugin.Configure(cctx, &api.ConfigureRequest{
+			Config: s.rt.config, RuntimeName: "scripted", RuntimeVersion: "v0",
+			RegistrationTimeout: s.sc.RegistrationTimeoutMs, RequestTimeout: s.sc.RequestTimeoutMs,
+		})
+		cancel()
+		return nil, errors.New("registration refused by the scripted runtime (after Configure)")
 	case "drop":
 		s.cc.kill()
 		return nil, errors.New("dropped")
@@ -258,8 +270,16 @@ func (s *session) afterRegister() {
 	case "silent":
 		return
 	}
-	ctx, cancel := context.WithTimeout(context.Background(), 3*time.Second)
+	// far above twice the driver's "still blocked" bound: a Configure handler that hangs must stay hung for the
+	// whole observation (a time-out of this call would release the stub and make the observation depend on the bound)
+	ctx, cancel := context.WithTimeout(context.Background(), 60*time.Second)
 	defer cancel()
+	if ms := s.sc.DropDuringCfgMs; ms > 0 {
+		go func() {
+			time.Sleep(time.Duration(ms) * time.Millisecond)
+			s.cc.kill()
+		}()
+	}
 	s.cfgResp, s.cfgErr = s.plugin.Configure(ctx, &api.ConfigureRequest{
 		Config: s.rt.config, RuntimeName: "scripted", RuntimeVersion: "v0",
 		RegistrationTimeout: s.sc.RegistrationTimeoutMs, RequestTimeout: s.sc.RequestTimeoutMs,
